@@ -191,6 +191,12 @@ func (a *act) loopWrites(li *loopInfo) (vars map[string]Sort, all bool) {
 					add(ri.visited, ArrS(ri.ksort, SBool))
 				}
 			case ssa.CallInstruction:
+				if _, isGo := in.(*ssa.Go); isGo && a.fx.spec != nil && a.fx.spec.Flags["go"] == "monitor" {
+					// monitor rule: the spawned body's effects on the shared state are accounted for where the lock is
+					// re-acquired (monitorenter), not at the spawn
+					add("$now", SInt)
+					continue
+				}
 				cw, callAll := a.callWrites(x.Common())
 				if callAll {
 					all = true
@@ -854,6 +860,11 @@ func (a *act) hintsAfter(in ssa.Instruction, b *ssa.BasicBlock, reach string, st
 		env := &SEnv{vars: map[string]Val{}, act: a, header: b, pkg: a.spec.Pkg, nowOld: fx.nowEntry, qn: &qn, atInstr: in}
 		for _, p := range a.fn.Params {
 			env.vars[p.Name()] = a.vals[p]
+		}
+		for _, fv := range a.fn.FreeVars {
+			v := a.vals[fv]
+			v.GT = fv.Type()
+			env.vars[fv.Name()] = v
 		}
 		if h.Use != nil {
 			func() {
